@@ -19,11 +19,11 @@ PROP_MODULES = {
     "C19": ["contracts.c19", "contracts.c19_bounded", "contracts.c02", "contracts.c15"],
     "C12": ["contracts.c12", "contracts.c12b", "contracts.c12c", "contracts.c12_bounded", "contracts.c10", "contracts.c13c"],
     "C13": ["contracts.c13", "contracts.c13b", "contracts.c13c", "contracts.c13_bounded", "contracts.c11", "contracts.c12", "contracts.c12c"],
-    "C14": ["contracts.c14", "contracts.c14_bounded", "contracts.c08", "contracts.c17", "contracts.c13", "contracts.c13c"],
+    "C14": ["contracts.c14", "contracts.c14_bounded", "contracts.c08", "contracts.c08b", "contracts.c17", "contracts.c13", "contracts.c13c"],
     "C06": ["contracts.c06", "contracts.c06_bounded"],
     "C07": ["contracts.c07", "contracts.c07_bounded", "contracts.c10", "contracts.c03"],
-    "C08": ["contracts.c08", "contracts.c15", "contracts.c12", "contracts.c15_bounded", "contracts.c13c"],
-    "C15": ["contracts.c15", "contracts.c13", "contracts.c08", "contracts.c10", "contracts.c17", "contracts.c14", "contracts.c12", "contracts.c15_bounded"],
+    "C08": ["contracts.c08", "contracts.c08b", "contracts.c15", "contracts.c12", "contracts.c15_bounded", "contracts.c13c"],
+    "C15": ["contracts.c15", "contracts.c13", "contracts.c08", "contracts.c08b", "contracts.c10", "contracts.c17", "contracts.c14", "contracts.c12", "contracts.c15_bounded"],
     "C16": ["contracts.c16", "contracts.c16_bounded", "contracts.c13c"],
     "C09": ["contracts.c09", "contracts.c09_bounded", "contracts.c08"],
     "C10": ["contracts.c10", "contracts.c10b", "contracts.c10_bounded"],
